@@ -12,6 +12,8 @@ ops   : ("p", k, side, ks)        k-th action the model predicts to change the s
         ("i", k, side, ks)        redundant-but-applicable exploit / escalation (all gates pass, model predicts no change)
         ("r", side, ks)           repeat the previous action
         ("o",)                    no-op (NoOp action object)
+        ("q", sub, i, var, side, ks)  hand-built Action object (public constructors): progress / near-miss / flat
+                                  action with required access ROOT|USER and possibly another prob / cost
         ("b", k)                  burn: repeat a cheap action until k%9+1 steps before the step limit
         ("x",)                    reset
         ("g", j, k, side, ks)     generative_step on the j-th saved earlier state (k-th progress action there)
@@ -118,6 +120,8 @@ class Harness:
         if act.kind == "noop":
             from nasim.envs.action import NoOp
             return NoOp()
+        if act.custom:
+            return self.hand_built(act)
         i = self.real_index[act.key()]
         if self.flat:
             return int(i)
@@ -127,6 +131,22 @@ class Harness:
             from .check_c12 import vector_of
             return vector_of(self.spec, act)
         return self.real_actions[i]
+
+    def hand_built(self, act):
+        """Action object made with the documented public constructors (step / generative_step
+        accept Action objects) - not a member of the environment's own action list"""
+        from nasim.envs import action as A
+        from nasim.envs.utils import AccessLevel
+        req = AccessLevel(int(act.req))
+        t = tuple(act.target)
+        if act.kind == "exploit":
+            return A.Exploit(name=act.name, target=t, cost=act.cost, service=act.service, os=act.os,
+                             access=AccessLevel(int(act.grant)), prob=act.prob, req_access=req)
+        if act.kind == "privesc":
+            return A.PrivilegeEscalation(name=act.name, target=t, cost=act.cost, access=AccessLevel(int(act.grant)),
+                                         process=act.process, os=act.os, prob=act.prob, req_access=req)
+        cls = {"service_scan": A.ServiceScan, "os_scan": A.OSScan, "subnet_scan": A.SubnetScan, "process_scan": A.ProcessScan}[act.kind]
+        return cls(target=t, cost=act.cost, prob=act.prob, req_access=req)
 
     def dyn(self, tensor):
         return self.layout.dyn_state(tensor, self.rowmap)
@@ -329,6 +349,20 @@ class Harness:
             return self.last_act or self.acts[0]
         if kind == "o":
             return M.Act("noop", (1, 0))
+        if kind == "q":
+            # hand-built variant of a progress / near-miss / flat action: required access ROOT (or USER),
+            # sometimes another probability / cost than the scenario's definition
+            sub, idx, var = op[1], op[2], op[3]
+            if sub % 3 == 0:
+                base = self.choose(("p", idx), mst)
+            elif sub % 3 == 1:
+                base = self.choose(("n", idx % 9, idx // 9), mst)
+            else:
+                base = self.choose(("f", idx), mst)
+            req = M.ROOT if var % 5 < 3 else M.USER
+            prob = [None, None, None, 0.5, 1.0, 0.25, 0.0][(var // 5) % 7]
+            cost = [None, None, 7.5, 0.0][(var // 35) % 4]
+            return base.variant(req=req, prob=prob, cost=cost)
         raise ValueError(op)
 
 
